@@ -1865,8 +1865,13 @@ class AstEval:
         kwargs = {}
         for kw_arg in arg.keywords:
             if kw_arg.arg is None:
-                kwargs.update(await self.aeval(kw_arg.value))
+                for key, val in (await self.aeval(kw_arg.value)).items():
+                    if key in kwargs:
+                        raise TypeError(f"got multiple values for keyword argument '{key}'")
+                    kwargs[key] = val
             else:
+                if kw_arg.arg in kwargs:
+                    raise TypeError(f"got multiple values for keyword argument '{kw_arg.arg}'")
                 kwargs[kw_arg.arg] = await self.aeval(kw_arg.value)
         args = await self.eval_elt_list(arg.args)
         #
